@@ -1504,10 +1504,14 @@ class Parameters:
         # Honestly, this function hasn't been tested thoroughly. But it can't be too harmful as its
         # bounded fairly heavily in how much it can adjust feed and thoroughly tested in terms of different scenarios.
 
-        potential_biofuel_increase = (
-            np.minimum(biofuel + increase, max_biofuel) - biofuel
+        # never negative: a value already at (or a rounding error above) its maximum has no room left,
+        # otherwise the division by (total + 1e-9) below can blow a tiny negative number up
+        potential_biofuel_increase = np.maximum(
+            np.minimum(biofuel + increase, max_biofuel) - biofuel, 0
         )
-        potential_feed_increase = np.minimum(feed + increase, max_feed) - feed
+        potential_feed_increase = np.maximum(
+            np.minimum(feed + increase, max_feed) - feed, 0
+        )
 
         # Check combined increase against total crops available
         total_potential_increase = potential_biofuel_increase + potential_feed_increase
